@@ -58,12 +58,11 @@ impl AdtMetadata {
 
         let removed_fields = evolution_steps
             .iter()
-            .filter_map(|evolution| {
-                if let Evolution::FieldRemoved { name } = evolution {
+            .filter_map(|evolution| match evolution {
+                Evolution::FieldRemoved { name } | Evolution::FieldMadeTransient { name } => {
                     Some(name.clone())
-                } else {
-                    None
                 }
+                _ => None,
             })
             .collect();
 
